@@ -71,6 +71,9 @@ pub struct SubModel {
     pub unconfirmed: BTreeSet<u32>,
     /// messages that may legitimately have been evicted from the server's bounded retransmission queue
     pub evictable: BTreeSet<u32>,
+    /// harness tick at which the client deleted the subscription
+    pub deleted_at_tick: Option<u64>,
+    pub created_at_tick: u64,
     pub unacked: Vec<u32>,
     /// time (ms) of the last client activity that resets the lifetime counter
     pub last_lifetime_reset_ms: u64,
@@ -304,6 +307,8 @@ impl World {
                         acked_good: BTreeSet::new(),
                         unconfirmed: BTreeSet::new(),
                         evictable: BTreeSet::new(),
+                        deleted_at_tick: None,
+                        created_at_tick: self.ticks,
                         unacked: Vec::new(),
                         last_lifetime_reset_ms: now,
                         must_be_expired: None,
@@ -328,8 +333,10 @@ impl World {
                     let r = self.c.call(req).await;
                     if let Recv::Msg(_, SupportedMessage::DeleteSubscriptionsResponse(resp)) = &r {
                         if resp.results.as_ref().map(|v| v[0].is_good()).unwrap_or(false) {
-                            self.capacity_shrunk = true;
+                            // the messages of a deleted subscription are purged before the retransmission
+                            // queue is counted, so a deletion pushes nothing out by itself
                             self.subs[k].alive = false;
+                            self.subs[k].deleted_at_tick = Some(self.ticks);
                             for it in self.subs[k].items.iter_mut() {
                                 it.alive = false;
                             }
@@ -737,6 +744,8 @@ impl World {
                         _ => self.subs[k].unacked.last().cloned(),
                     };
                     if let Some(seq) = seq {
+                        // the verdict uses what may have happened up to now, unread responses included
+                        self.mark_evictable(ctx);
                         let req: SupportedMessage = RepublishRequest {
                             request_header: self.c.header(),
                             subscription_id: self.subs[k].id,
@@ -861,6 +870,42 @@ impl World {
         }
     }
 
+    /// Retransmission capacity is 4 x subscriptions; a message is only insisted on while the queue
+    /// cannot have been over it. Messages of deleted subscriptions are purged before the count, so a
+    /// deletion pushes nothing out by itself; a subscription that may have expired without the client
+    /// knowing yet does not count towards the capacity. An expiry is different: the server may keep
+    /// the closed subscription's messages (its status change among them) in the queue for a pass
+    /// while the capacity already counts one subscription less, so everything unconfirmed at that
+    /// moment may be pushed out. Which message goes first is the server's business (it is not the
+    /// oldest: the queue is ordered by subscription id), so the verdict is all-or-nothing.
+    /// Called whenever a message has been received and at the end of every pass.
+    fn mark_evictable(&mut self, ctx: &mut Ctx) {
+        let now_ms = self.now_ms();
+        let ticks_now = self.ticks;
+        // (a subscription created since the last read does not count either: what is read now may have
+        // been sent before it existed)
+        let alive = self.subs.iter().filter(|s| s.alive && s.created_at_tick + 1 < ticks_now && (now_ms.saturating_sub(s.last_lifetime_reset_ms) as f64) + 3.0 * s.pi_ms < s.lt as f64 * s.pi_ms).count();
+        let unconfirmed: usize = self.subs.iter().filter(|s| s.alive).map(|s| s.unconfirmed.len()).sum();
+        // the server's queue also holds what it has sent and the client has not read yet: at most one
+        // message per outstanding publish request
+        let in_flight = self.outstanding.len();
+        // a message read now may have been sent while a subscription deleted since the last read still
+        // existed: then its messages and its share of the capacity counted
+        let ticks = self.ticks;
+        let grace: Vec<usize> = (0..self.subs.len()).filter(|k| !self.subs[*k].alive && self.subs[*k].deleted_at_tick.map(|t| ticks <= t + 1).unwrap_or(false)).collect();
+        let grace_unconfirmed: usize = grace.iter().map(|k| self.subs[*k].unconfirmed.len()).sum();
+        let over_now = unconfirmed + in_flight + 1 > 4 * alive;
+        let over_before_delete = !grace.is_empty() && unconfirmed + grace_unconfirmed + in_flight + 1 > 4 * (alive + grace.len());
+        if over_now || over_before_delete || self.capacity_shrunk {
+            self.capacity_shrunk = false;
+            for sub in self.subs.iter_mut() {
+                let u: Vec<u32> = sub.unconfirmed.iter().cloned().collect();
+                sub.evictable.extend(u);
+            }
+            ctx.probe("retransmission_queue_near_capacity");
+        }
+    }
+
     fn make_acks(&mut self, mode: &str) -> Vec<SubscriptionAcknowledgement> {
         let mut acks = Vec::new();
         match mode {
@@ -913,6 +958,13 @@ impl World {
                             subscription_id: sub.id,
                             sequence_number: seq,
                         });
+                        if mode == "twice" {
+                            // the same acknowledgement a second time in the same request
+                            acks.push(SubscriptionAcknowledgement {
+                                subscription_id: sub.id,
+                                sequence_number: seq,
+                            });
+                        }
                     }
                 }
             }
@@ -1021,18 +1073,7 @@ impl World {
             }
         }
         self.check_priority(&batch, &ready, ctx);
-        // Retransmission capacity is 4 x subscriptions; stay well below it before insisting that a
-        // message is still retained. Deleting / expiring a subscription shrinks the capacity.
-        let alive = self.subs.iter().filter(|s| s.alive).count();
-        let unconfirmed: usize = self.subs.iter().map(|s| s.unconfirmed.len()).sum();
-        if unconfirmed + 1 >= 3 * alive || self.capacity_shrunk {
-            self.capacity_shrunk = false;
-            for sub in self.subs.iter_mut() {
-                let u: Vec<u32> = sub.unconfirmed.iter().cloned().collect();
-                sub.evictable.extend(u);
-            }
-            ctx.probe("retransmission_queue_near_capacity");
-        }
+        self.mark_evictable(ctx);
         // top-up of publish requests (regimes where requests are "always available")
         if self.auto_publish > 0 && !self.dead && self.subs.iter().any(|s| s.alive) {
             while self.outstanding.len() < self.auto_publish {
@@ -1142,6 +1183,7 @@ impl World {
                     }
                 };
                 // acknowledgement results (C40)
+                self.mark_evictable(ctx);
                 self.check_ack_results(&out, resp, ctx);
                 let nm = &resp.notification_message;
                 let (kind, values) = classify(nm);
@@ -1174,6 +1216,7 @@ impl World {
                         sub.first_msg_at_ms = Some(now);
                     }
                 }
+                self.mark_evictable(ctx);
                 self.check_keepalive_timing(k, now, &kind, ctx);
                 let sub = &mut self.subs[k];
                 sub.last_msg_at_ms = Some(now);
@@ -1367,8 +1410,17 @@ impl World {
         }
         let total_unacked: usize = self.subs.iter().filter(|s| s.alive).map(|s| s.sent.len() - s.acked_good.len()).sum();
         let alive = self.subs.iter().filter(|s| s.alive).count();
+        let mut seen_in_request: BTreeSet<(u32, u32)> = BTreeSet::new();
         for ((sub_id, seq), st) in out.acks.iter().zip(results.iter()) {
             let k = self.subs.iter().position(|s| s.id == *sub_id);
+            if out.ack_mode == "twice" && !seen_in_request.insert((*sub_id, *seq)) {
+                // second occurrence in one request: the first one removed the message
+                ctx.probe("ack_duplicate_in_one_request");
+                if st.is_good() {
+                    ctx.violate("C40", "ack-duplicate-good", "same-request", format!("sequence number {} acknowledged twice in one publish request: both results are Good", seq));
+                }
+                continue;
+            }
             match out.ack_mode.as_str() {
                 "unknown" => {
                     ctx.probe("ack_unknown_sequence");
